@@ -1,2 +1,4 @@
 import SnootyVerif.Properties.C09
 import SnootyVerif.Properties.C06
+import SnootyVerif.Properties.C07
+import SnootyVerif.Properties.C15
